@@ -529,7 +529,7 @@ class Interp(object):
         raise Unsupported('call %s' % fname)
 
     def strftime(self, kind, fmt):
-        table = {'%H': '[0-9]{2}', '%M': '[0-9]{2}', '%S': '[0-9]{2}', '%Y': '[0-9]{4}', '%m': '[0-9]{2}', '%d': '[0-9]{2}',
+        table = {'%H': '[0-9]{2}', '%M': '[0-9]{2}', '%S': '[0-9]{2}', '%Y': '[0-9]{1,4}', '%m': '[0-9]{2}', '%d': '[0-9]{2}',
                  '%f': '[0-9]{6}', '%z': '[+-][0-9]{4}'}
         out = ''
         i = 0
